@@ -360,6 +360,9 @@ func (ti *TermInterp) walk(fr *termFrame, b, pred *ssa.BasicBlock, p *termPath, 
 		ctT := ti.valueTerm(ti.eval(fr, iff.Cond, p), p)
 		ct := ctT.String()
 		for i, s := range succs {
+			if !(second && body != nil) && ((ct == "const:true" && i == 1) || (ct == "const:false" && i == 0)) {
+				continue // infeasible edge (not applied when leaving an abstracted loop)
+			}
 			if second && body != nil && body[s] {
 				continue // after one iteration only the exits are followed
 			}
@@ -509,6 +512,12 @@ func (ti *TermInterp) step(fr *termFrame, ins ssa.Instruction, p *termPath, dept
 				a, b = b, a
 			}
 		}
+		if strings.HasPrefix(a.Op, "const:") && strings.HasPrefix(b.Op, "const:") && len(a.Args) == 0 && len(b.Args) == 0 {
+			if folded := foldConst(x.Op, ti.valueTerm(ti.eval(fr, x.X, p), p).Op, ti.valueTerm(ti.eval(fr, x.Y, p), p).Op); folded != "" {
+				fr.vals[x] = tval{t: T(folded)}
+				return true
+			}
+		}
 		fr.vals[x] = tval{t: T(op, a, b)}
 	case *ssa.Convert:
 		v := ti.eval(fr, x.X, p)
@@ -580,6 +589,44 @@ func (ti *TermInterp) step(fr *termFrame, ins ssa.Instruction, p *termPath, dept
 		}
 	}
 	return true
+}
+
+// foldConst evaluates an integer operation on two constant leaves ("const:<int>").
+func foldConst(op token.Token, xs, ys string) string {
+	var x, y int64
+	if _, err := fmt.Sscanf(strings.TrimPrefix(xs, "const:"), "%d", &x); err != nil {
+		return ""
+	}
+	if _, err := fmt.Sscanf(strings.TrimPrefix(ys, "const:"), "%d", &y); err != nil {
+		return ""
+	}
+	b := func(v bool) string {
+		if v {
+			return "const:true"
+		}
+		return "const:false"
+	}
+	switch op {
+	case token.ADD:
+		return fmt.Sprintf("const:%d", x+y)
+	case token.SUB:
+		return fmt.Sprintf("const:%d", x-y)
+	case token.MUL:
+		return fmt.Sprintf("const:%d", x*y)
+	case token.LSS:
+		return b(x < y)
+	case token.LEQ:
+		return b(x <= y)
+	case token.GTR:
+		return b(x > y)
+	case token.GEQ:
+		return b(x >= y)
+	case token.EQL:
+		return b(x == y)
+	case token.NEQ:
+		return b(x != y)
+	}
+	return ""
 }
 
 func (fr *termFrame) inLoop(b *ssa.BasicBlock) bool {
